@@ -595,16 +595,25 @@ func decodeDirty(sp *attrSpec, m *stun.Message, dirty int) (val string, re stun.
 		return hex.EncodeToString(v), v, err
 	case "REQUESTED-TRANSPORT":
 		var v proto.RequestedTransport
+		if dirty > 0 {
+			v.Protocol = 99
+		}
 		err = v.GetFrom(m)
 
 		return fmt.Sprint(byte(v.Protocol)), v, err
 	case "REQUESTED-ADDRESS-FAMILY":
 		var v proto.RequestedAddressFamily
+		if dirty > 0 {
+			v = proto.RequestedAddressFamily(byte(dirty))
+		}
 		err = v.GetFrom(m)
 
 		return fmt.Sprint(byte(v)), v, err
 	case "EVEN-PORT":
 		var v proto.EvenPort
+		if dirty > 0 {
+			v.ReservePort = true
+		}
 		err = v.GetFrom(m)
 
 		return fmt.Sprint(v.ReservePort), v, err
@@ -697,6 +706,12 @@ func attrRaw(c *C11Case) (string, string) {
 		got2, _, derr2 := decodeAny(sp, m3)
 		if derr2 != nil || got2 != got {
 			return "attr-raw-drift", fmt.Sprintf("%s: value %x decodes as %s but re-encodes to something that decodes as %s (err %v)", c.Attr, val, got, got2, derr2)
+		}
+	}
+	// EVEN-PORT: the R bit is the top bit; the other seven are reserved and ignored on reception
+	if sp.name == "EVEN-PORT" {
+		if want := fmt.Sprint(val[0]&0x80 != 0); got != want {
+			return "attr-raw-value", fmt.Sprintf("EVEN-PORT: value %#02x decodes as R=%s, the R bit (0x80) says %s", val[0], got, want)
 		}
 	}
 	// reference agreement for the address attributes
